@@ -21,6 +21,9 @@ func propC16(c *Ctx, r *Report) {
 	r.floor("names.sanitize.returns", 10)
 	r.Clauses = append(r.Clauses, "fresh names (E19 provenance): every spelling stored into a writer's entity-name table (types, members, functions, arguments, locals, globals, entry points, baked expressions, flattened entry-point parameters) comes from the namer, from another name table, or from one of the generated spellings frozen per table - never directly from an IR name or from a table of another scope")
 	c.runNameFresh(r, "names.fresh", inPkgs("hlsl", "msl", "glsl"))
+	r.Clauses = append(r.Clauses, rawNamesClause)
+	c.runRawNames(r, "names.rawuse", inPkgs("hlsl", "msl", "glsl"), rawNameExceptions)
+	r.floor("names.rawuse", 1)
 	r.floor("names.stores", 60)
 	r.floor("namecheck.sites", 4)
 	r.floor("tables.keywords.GLSL", 200)
